@@ -547,6 +547,9 @@ func H_C17_ready() {
 	} else {
 		vAssertE(v.s.Ready(), "Ready is true once Run is accepting")
 		vAssertE(vEnvListenerOpen() == 1, "listening")
+		if vBool("acceptErrorFirst") {
+			vEnvAcceptTempErr() // a connection attempt that hits descriptor exhaustion; the next one must be served
+		}
 		vEnvAccept(nc)
 		vQuiesce()
 		vAssertE(served, "a connection attempt made while Ready() is true is served")
